@@ -541,6 +541,27 @@ def drop_logs(fn):
     return D().visit(f2)
 
 
+def dot_bound(ex, test_text, what):
+    """the test must contain exactly one strict comparison `dot < B` (or `B > dot`): returns the Gallina term of B"""
+    node = ex.parse(test_text)
+    found = []
+    for n in ast.walk(node):
+        if isinstance(n, ast.Compare) and len(n.ops) == 1:
+            l, r = ast.unparse(n.left), ast.unparse(n.comparators[0])
+            ld = l in ex.env and ex.env[l][1] == "d"
+            rd = r in ex.env and ex.env[r][1] == "d"
+            if ld and isinstance(n.ops[0], ast.Lt):
+                found.append(ex.q(n.comparators[0]))
+            elif rd and isinstance(n.ops[0], ast.Gt):
+                found.append(ex.q(n.left))
+            elif ld or rd:
+                raise TranslationError("%s: %s: the dot product is not compared by a strict upper bound: `%s`"
+                                       % (FEAT, what, ast.unparse(n)))
+    if len(found) != 1:
+        raise TranslationError("%s: %s: expected exactly one comparison of the dot product, found %d" % (FEAT, what, len(found)))
+    return found[0]
+
+
 def gen_features(parts):
     src, tree = T.load(FEAT)
     out = []
@@ -571,6 +592,7 @@ def gen_features(parts):
                      "v1.is_edge_on_border(*v1.edges[v4])": ("B", "onb"), "v1.is_edge_on_border(v5, v6)": ("B", "onb"),
                      "v1.is_edge_on_border(v6, v5)": ("B", "onb")})
     out.append("Definition hard_test (d : Q) (onb : bool) : bool := %s." % e.b(e.parse(h["test"]), "Q"))
+    out.append("Definition hard_bound : Q := %s." % dot_bound(e, h["test"], W))
     # sharp pass
     W = "_add_sharp_angles_to_features"
     h = match_lines(FEAT, W, canon_fn(fn_of(W, ["self", "mesh", "feature_attr"]), FEAT), SHARP_T)
@@ -581,6 +603,7 @@ def gen_features(parts):
     thr = Ex(FEAT, W, {}).q(Ex(FEAT, W, {}).parse(h["thr"]))
     e = Ex(FEAT, W, {"geometry.dot(v9, v10)": ("Q", "d"), "geometry.dot(v10, v9)": ("Q", "d"), "v3": ("Q", thr)})
     out.append("Definition sharp_test (d : Q) : bool := %s." % e.b(e.parse(h["test"]), "Q"))
+    out.append("Definition sharp_bound : Q := %s." % dot_bound(e, h["test"], W))
     # run: order of the passes, containers
     W = "run"
     fn = fn_of("run", ["self", "mesh"])
